@@ -10,12 +10,15 @@ GLOBAL_ASSUMPTIONS = [
 
 PROPS = {
     "C01": {"units": ["streams"]},
+    "C02": {"units": ["range"]},
+    "C03": {"units": ["range"]},
     "C06": {"units": ["streams"]},
     "C07": {"units": ["streams"]},
     "C08": {"units": ["chunker"]},
     "C10": {"units": ["chunker"]},
     "C11": {"units": ["chunker"]},
     "C12": {"units": ["streams", "chunker"]},
+    "C13": {"units": ["range"]},
     "C20": {"units": ["streams", "chunker"]},
 }
 
